@@ -570,6 +570,50 @@ func runSQLite(args []string) {
 			}
 		}
 		dist["roundtrip-compared"]++
+		// the same rows read back into maps and into pointers, one element per row, each with
+		// the values of its own row (compared with the plain dump)
+		if msel, err := sqlair.Prepare("SELECT ("+strings.Join(st.cols, ", ")+") AS (&M.*) FROM t1 ORDER BY rowid", sqlair.M{}); err == nil {
+			var ms []sqlair.M
+			if err := db.Query(ctx, msel).GetAll(&ms); err != nil {
+				fail("C17", caseJSON, "select into maps failed: "+err.Error(), "")
+			} else {
+				var md []string
+				for _, m := range ms {
+					vals := make([]any, len(st.cols))
+					for i, c := range st.cols {
+						vals[i] = m[c]
+						if b, ok := vals[i].([]byte); ok {
+							vals[i] = fmt.Sprintf("blob:%x", b)
+						}
+					}
+					md = append(md, fmt.Sprint(vals...))
+				}
+				if fmt.Sprint(md) != fmt.Sprint(d1) {
+					fail("C17", caseJSON, fmt.Sprintf("rows read back into a slice of maps differ from the table: %v vs %v", md, d1), "")
+				}
+				dist["roundtrip-maps"]++
+			}
+		} else {
+			fail("C17", caseJSON, "Prepare rejected the select into maps: "+err.Error(), "")
+		}
+		gotP := reflect.New(reflect.SliceOf(reflect.PointerTo(st.t)))
+		if err := db.Query(ctx, sel).GetAll(gotP.Interface()); err != nil {
+			fail("C17", caseJSON, "select into pointers failed: "+err.Error(), "")
+		} else if gp := gotP.Elem(); gp.Len() != g.Len() {
+			fail("C17", caseJSON, fmt.Sprintf("read back %d pointers for %d rows", gp.Len(), g.Len()), "")
+		} else {
+			for k := 0; k < gp.Len(); k++ {
+				e := gp.Index(k).Elem()
+				normalise(e)
+				if !reflect.DeepEqual(e.Interface(), g.Index(k).Interface()) {
+					wb, _ := json.Marshal(g.Index(k).Interface())
+					gb, _ := json.Marshal(e.Interface())
+					if !bytes.Equal(wb, gb) {
+						fail("C17", caseJSON, fmt.Sprintf("row %d read back through a pointer differs: %+v vs %+v", k, e.Interface(), g.Index(k).Interface()), "")
+					}
+				}
+			}
+		}
 		// update / delete with member and slice inputs, mirrored by hand
 		ids := SIDs{}
 		for k := 0; k < nrows; k++ {
